@@ -297,6 +297,15 @@ def rule_k4(chk: Check, F, ix: Index):
     f = ix.get("next_statement")
     loop = next((n for n in own_nodes(f.node) if isinstance(n, ast.While) and "state.pos < state.max" in norm_stmt(n.test)), None)
     if loop is None:
+        uses = sorted({n.func.attr for n in ast.walk(f.node) if isinstance(n, ast.Call) and isinstance(n.func, ast.Attribute)
+                       and n.func.attr in ("expandtabs", "lstrip", "strip")})
+        if uses:
+            chk.count("K4-indentation")
+            chk.fail("K4-indentation", "indentation-measure", f.where,
+                     f"indentation is measured with str.{'/'.join(uses)} instead of character by character: `expandtabs` knows tab stops "
+                     f"but not the form-feed reset (a form feed sets the column back to 0), and `lstrip` decides by itself which characters "
+                     f"are indentation")
+            return
         raise AnalysisError("indentation measuring loop not found")
     # one iteration of the measuring loop as a path set, evaluated for every (character, column): what happens to the column,
     # and whether the character is consumed as indentation — the shape of the if/elif chain is irrelevant
@@ -425,6 +434,9 @@ def run(chk: Check):
     # the wrapper's token filter decides which NEWLINE/NL/COMMENT tokens the grammar sees (CPython's NL vs NEWLINE distinction)
     from .c01 import rule_is_blank
     rule_is_blank(chk, "K7-token-filter")
+    from .c08 import rule_l1, rule_l4
+    rule_l1(chk, ix)   # positions are part of the agreement with CPython's tokens
+    rule_l4(chk, ix)
     from .c08 import rule_l5
     rule_l5(chk, ix)
     chk.floor("K1-sublanguage", 3)
